@@ -137,6 +137,12 @@ _PATCHES = {
         ("NOT covered: And/Or::evaluate (closure capturing &mut state), LessThanN, OptimumReached, RandomChance, the 'exactly n passes' composition.",
          "LessThanN::evaluate (Verus, decision only: float division is uninterpreted) and the lemma 'a loop bounded by n makes exactly n passes' are part of the units. And/Or::evaluate (closure capturing &mut state), OptimumReached, RandomChance, the progress VALUE and whole loops (passes, tests, every-n) are covered ONLY by bounded native runs (native_bounded in the evidence, never counted as proved)."),
     ],
+    "C11": [
+        ("RandomWithoutRepetition::select errs exactly when there are too few individuals and otherwise returns the requested number of distinct members.",
+         "RandomWithoutRepetition::select errs exactly when there are too few individuals and otherwise returns the requested number of distinct members. All / None / CloneSingle / FullyRandom::select are proved (unbounded) to return everything in order / nothing / an error unless exactly one individual and else the requested number of references to it / exactly the requested number of members. objective_bounds (in-place Kani function contract), proportional_weights, reverse_rank and into_single_ref are Kani triples at enumerated sizes."),
+        ("Not covered: ExponentialRank, RouletteWheel, SUS, Tournament, DE selections.",
+         "ExponentialRank, RouletteWheel, SUS, Tournament, the DE selections and the IWO selection (sampling loops, float weights) are covered ONLY by a bounded native run of the real components over populations, counts and seeds (native_bounded in the evidence, never counted as proved); writing it exposed the ExponentialRank defect (repaired)."),
+    ],
     "C12": [
         ("Verus contracts on the real replacement() driver and MuPlusLambda::replace + Kani/CBMC Hoare triples on the replace kernels",
          "Verus contracts on the real replacement() driver and the replace kernels + Kani/CBMC Hoare triples on the replace kernels"),
